@@ -201,3 +201,22 @@ pub fn to_json(
     json!({"size": f.size, "trailer": f.trailer, "blocks": blocks, "slack": f.slack,
            "error": f.error.clone().unwrap_or_default()})
 }
+
+/// Largest stored (compressed) block of a file, without inflating anything: the walk over the
+/// length prefixes only. Used for the byte-volume form of the C16 bound.
+pub fn max_stored(bytes: &[u8], trailer_len: usize) -> u64 {
+    if bytes.len() < trailer_len {
+        return 0;
+    }
+    let body_end = bytes.len() - trailer_len;
+    let (mut off, mut max) = (0usize, 0u64);
+    while off + 8 <= body_end {
+        let stored = be64(&bytes[off..off + 8]);
+        if stored > (body_end - off - 8) as u64 {
+            break;
+        }
+        max = max.max(stored);
+        off += 8 + stored as usize;
+    }
+    max
+}
